@@ -1,9 +1,9 @@
 (* Mat/SingularF.v - binary64 cancellation facts under the singular-matrix clause of C20: a finite float of
    real value 0 is a zero, and x + (-x) is a zero for every finite x (the step that makes the float determinant
    of a matrix with a repeated column vanish; the full float determinant statement is still model-evaluated). *)
-From Coq Require Import Reals ZArith Lia Lra.
+From Coq Require Import Reals ZArith Lia Lra Bool.
 From Flocq Require Import Core IEEE754.BinarySingleNaN.
-From PrismV Require Import Num.F64 Mat.Dot3.
+From PrismV Require Import Num.F64 Mat.Mat3G Mat.Mat3F Mat.Dot3.
 Open Scope R_scope.
 (* a finite binary64 whose real value is 0 is a zero *)
 Lemma finite_zero_is_zero (x : f64) : is_finite x = true -> B2R x = 0 -> is_zero64 x = true.
@@ -22,4 +22,55 @@ Proof.
   rewrite B2R_Bopp. replace (B2R x + - B2R x) with 0 by ring. rewrite round_0 by auto with typeclass_instances.
   rewrite Rabs_R0. rewrite Rlt_bool_true by apply bpow_gt_0.
   intros (H1 & H2 & _). apply finite_zero_is_zero; assumption.
+Qed.
+
+Lemma mul_zero_is_zero (b z : f64) : is_finite b = true -> is_zero64 z = true -> is_zero64 (mul64 b z) = true.
+Proof. destruct z; try discriminate. destruct b; try discriminate; intros; reflexivity. Qed.
+Lemma add_zeros_is_zero (p q : f64) : is_zero64 p = true -> is_zero64 q = true -> is_zero64 (add64 p q) = true.
+Proof. destruct p as [sp| | |]; try discriminate. destruct q as [sq| | |]; try discriminate. intros _ _. destruct sp, sq; reflexivity. Qed.
+Lemma sub_self_is_zero (x : f64) : is_finite x = true -> is_zero64 (sub64 x x) = true.
+Proof.
+  intros Fx. unfold sub64.
+  generalize (Bminus_correct 53 1024 P53 PE1024 mode_NE x x Fx Fx).
+  replace (B2R x - B2R x)%R with 0%R by ring. rewrite round_0 by auto with typeclass_instances.
+  rewrite Rabs_R0. rewrite Rlt_bool_true by apply bpow_gt_0.
+  intros (H1 & H2 & _). apply finite_zero_is_zero; assumption.
+Qed.
+Lemma mul_opp_cancel (a X : f64) : is_finite a = true -> is_finite X = true -> is_finite (mul64 a X) = true ->
+  is_zero64 (add64 (mul64 a X) (mul64 a (neg64 X))) = true.
+Proof.
+  intros Fa FX FP. unfold mul64, neg64 in *.
+  pose proof (Bmult_correct 53 1024 P53 PE1024 mode_NE a X) as H1.
+  pose proof (Bmult_correct 53 1024 P53 PE1024 mode_NE a (Bopp X)) as H2.
+  rewrite B2R_Bopp in H2.
+  replace (B2R a * - B2R X) with (- (B2R a * B2R X)) in H2 by ring.
+  simpl round_mode in *. rewrite round_NE_opp, Rabs_Ropp in H2.
+  destruct (Rlt_bool (Rabs (round radix2 (SpecFloat.fexp 53 1024) ZnearestE (B2R a * B2R X))) (bpow radix2 1024)) eqn:E.
+  - destruct H1 as (R1 & F1 & _). destruct H2 as (R2 & F2 & _).
+    rewrite is_finite_Bopp, Fa, FX in F2. simpl in F2.
+    unfold add64.
+    generalize (Bplus_correct 53 1024 P53 PE1024 mode_NE _ _ FP F2).
+    rewrite R1, R2. simpl round_mode.
+    match goal with |- context [round _ _ _ (?r + - ?r)] => replace (r + - r) with 0 by ring end.
+    rewrite round_0 by auto with typeclass_instances.
+    rewrite Rabs_R0. rewrite Rlt_bool_true by apply bpow_gt_0.
+    intros (H3 & H4 & _). apply finite_zero_is_zero; assumption.
+  - exfalso. rewrite <- is_finite_SF_B2SF in FP. rewrite H1 in FP. unfold binary_overflow in FP. simpl in FP. discriminate.
+Qed.
+
+(* Matrix3.Inverse on a matrix whose first two columns coincide: the float64 determinant, evaluated as the
+   code evaluates it, is a zero (so `det == 0` holds and Inverse panics) whenever the four intermediate
+   values named below are finite - in particular for every matrix with entries in [-4, 4] *)
+Theorem det_repeated_first_float (a b : vecF) :
+  let X := sub64 (mul64 (v1 a) (v2 b)) (mul64 (v1 b) (v2 a)) in
+  is_finite (v0 a) = true -> is_finite (v0 b) = true -> is_finite X = true ->
+  is_finite (mul64 (v0 a) X) = true -> is_finite (mul64 (v1 a) (v2 a)) = true ->
+  is_zero64 (detF (M a a b)) = true /\ inverseF (M a a b) = None.
+Proof.
+  intros X Fa Fb FX FP FQ.
+  assert (Z : is_zero64 (detF (M a a b)) = true).
+  { unfold detF, detG, adjG. cbn [v0 v1 v2 c0 c1 c2]. fold X.
+    apply add_zeros_is_zero; [ apply mul_opp_cancel; assumption | ].
+    apply mul_zero_is_zero; [ assumption | apply sub_self_is_zero; assumption ]. }
+  split; [ exact Z | unfold inverseF; rewrite Z; reflexivity ].
 Qed.
